@@ -2,6 +2,7 @@
 package main
 
 import (
+	"os"
 	"strings"
 	"time"
 
@@ -56,10 +57,15 @@ func scenarios(tier string) []engine.Scenario {
 			}
 		}
 	}
+	scs = append(scs, racePassScenario())
 	return scs
 }
 
 func main() {
+	if os.Getenv("C10_RACE_CHILD") == "1" {
+		raceChildMain()
+		return
+	}
 	engine.Main(engine.Check{
 		ID:    "C10",
 		Level: "model_checking",
